@@ -129,7 +129,8 @@ def _rel_form(shape):
             cur = s[-1]
     radii = [[mil(s[1]), mil(s[2])] for _, ss in shape for s in ss if s[0] == "A"]
     flags = [[int(s[4]), int(s[5])] for _, ss in shape for s in ss if s[0] == "A"]
-    return {"m": [mil(first[0]), mil(first[1])], "segs": segs, "radii": radii, "flags": flags}
+    rots = [int(round(float(s[3]))) % 180 for _, ss in shape for s in ss if s[0] == "A"]
+    return {"m": [mil(first[0]), mil(first[1])], "segs": segs, "radii": radii, "flags": flags, "rots": rots}
 
 
 def job(j):
@@ -247,6 +248,26 @@ def jobs_for(tier, rng):
         if d2:
             for tol in tols + [0.5]:
                 jobs.append((sh, sh, tol, "identity-or-any", "%s=respelled" % n, d_of(sh), d2))
+    # a NON-circular arc: under quarter turns and axis mirrors the ellipse's axes turn with the shape
+    # (radii swapped or x-axis-rotation 90 for the quarter turns); a report for a target whose ellipse
+    # kept its axes is a report for another outline (TraceReuse EllipseAgree)
+    egg = [((0, 0), [("A", 10, 5, 0, 0, 1, (8, 6)), ("L", (5, 10)), ("Z",)])]
+    def reaxis(shape, swap=False, rot=0, sweepflip=False):
+        return [(st, [((sg[0],) + ((sg[2], sg[1]) if swap else (sg[1], sg[2])) + (rot, sg[4], (1 - sg[5]) if sweepflip else sg[5]) + sg[6:])
+                      if sg[0] == "A" else sg for sg in sgs]) for st, sgs in shape]
+    for tn in ("translate", "rot90", "rot180+t", "mirrorx", "mirrory+rot"):
+        t = apply(TRANSFORMS[tn], egg)
+        quarter = tn in ("rot90", "mirrory+rot")
+        mirror = tn.startswith("mirror")
+        for tol in tols:
+            # the true image, spelled with swapped radii / with rotation 90; and the outline whose ellipse did not turn
+            jobs.append((egg, reaxis(t, swap=quarter, sweepflip=mirror), tol, "found" if tn == "translate" else "any",
+                         "egg->%s true-image" % tn))
+            if quarter:
+                jobs.append((egg, reaxis(t, rot=90, sweepflip=mirror), tol, "any", "egg->%s true-image rot90-spelling" % tn))
+                jobs.append((egg, reaxis(t, sweepflip=mirror), tol, "any", "egg->%s axes-not-turned" % tn))
+            else:
+                jobs.append((egg, reaxis(t, swap=True, sweepflip=mirror), tol, "any", "egg->%s axes-turned-wrongly" % tn))
     # the same NUMBERS under relative letters are another outline (vertices are running sums): whatever is
     # reported for (absolute spelling, relative spelling of the same numbers) must map onto that outline
     for n in names:
